@@ -3,13 +3,17 @@
    schedule.
 
    Method: `step_eff` abstracts one step of the transition system to its effect
-   on the three components C02 talks about (loop pc, dispatcher goroutines,
-   ghost log): the relation `eff`, one constructor per kind of step.  Four
-   invariants over (pc, goroutines, log) are shown preserved by `eff`:
-     I_owed     multiset equation  owed = handed + pending(pc)   (counting)
+   on the components C02 talks about (loop pc, dispatcher goroutines, Init
+   forwarder, cancellation flag, ghost log): the relation `eff`, one
+   constructor per kind of step.  Five invariants over these components are
+   shown preserved by `eff`:
+     I_owed     counting: handed + pending(pc) + pending(forwarder) <= owed, with
+                equality while the context is not cancelled and the loop runs
      I_started  starts on dispatcher goroutines = the hand-overs, numbered
-     I_res      per goroutine: state of the delivered_after_end walk + receipts
+     I_res      per goroutine: state of the delivered_after_end walk + what it
+                got rid of (delivered or dropped)
      I_upd      only updatable messages reach Update
+     I_ndc      no EDrop before the first ECancel; cancelled -> ECancel logged
    and lifted over `run` by induction on the schedule. *)
 From Coq Require Import List Bool Arith Lia PeanoNat.
 Import ListNotations.
@@ -30,6 +34,16 @@ Lemma cnt_nil_all l : (forall x, cnt x l = 0) -> l = [].
 Proof.
   destruct l as [|n l]; [reflexivity|]. intro H. specialize (H n). simpl in H.
   rewrite Nat.eqb_refl in H. discriminate.
+Qed.
+
+Lemma cnt_single_all c l : (forall x, cnt x l = cnt x [c]) -> l = [c].
+Proof.
+  intro H. destruct l as [|h t].
+  - specialize (H c). simpl in H. rewrite Nat.eqb_refl in H. discriminate.
+  - assert (h = c) as E.
+    { pose proof (H h) as Hh. simpl in Hh. rewrite Nat.eqb_refl in Hh.
+      destruct (Nat.eqb h c) eqn:E; [apply Nat.eqb_eq; exact E|lia]. }
+    subst h. f_equal. apply cnt_nil_all. intro x. specialize (H x). simpl in H. lia.
 Qed.
 
 Lemma cnt_In x l : 1 <= cnt x l <-> In x l.
@@ -115,10 +129,50 @@ Lemma starts_app a b : starts_of_cmds (a ++ b) = starts_of_cmds a ++ starts_of_c
 Proof. apply flat_map_app. Qed.
 Lemma recv_from_app w a b : recv_from w (a ++ b) = recv_from w a ++ recv_from w b.
 Proof. apply flat_map_app. Qed.
+Lemma sent_from_app w a b : sent_from w (a ++ b) = sent_from w a ++ sent_from w b.
+Proof. apply flat_map_app. Qed.
+
+Lemma recv_le_sent w : forall log, length (recv_from w log) <= length (sent_from w log).
+Proof.
+  induction log as [|e log IH]; simpl; [lia|]. rewrite !app_length.
+  destruct e; simpl; try lia; destruct (who_eqb w w0); simpl; lia.
+Qed.
+
+(* until the context is cancelled nothing is dropped: what a sender got rid of is what the loop took *)
+Lemma sent_eq_recv w : forall log, no_drop_before_cancel log = true -> ~ In ECancel log ->
+  sent_from w log = recv_from w log.
+Proof.
+  induction log as [|e log IH]; simpl; intros H Hn; [reflexivity|].
+  destruct e; simpl in *; try discriminate; try (apply IH; tauto).
+  f_equal. apply IH; tauto.
+Qed.
+
+Definition nodrop (e : ev) : bool := match e with EDrop _ _ => false | _ => true end.
+
+Lemma nodrop_ndc : forall es, forallb nodrop es = true -> no_drop_before_cancel es = true.
+Proof.
+  induction es as [|e es IH]; simpl; intro H; [reflexivity|].
+  apply andb_prop in H. destruct H as [H1 H2]. destruct e; try discriminate; auto.
+Qed.
+
+Lemma ndc_app_nodrop : forall log es, no_drop_before_cancel log = true -> forallb nodrop es = true ->
+  no_drop_before_cancel (log ++ es) = true.
+Proof.
+  induction log as [|e log IH]; simpl; intros es H He; [apply nodrop_ndc; exact He|].
+  destruct e; try discriminate; auto.
+Qed.
+
+Lemma ndc_app_cancelled : forall log es, no_drop_before_cancel log = true -> In ECancel log ->
+  no_drop_before_cancel (log ++ es) = true.
+Proof.
+  induction log as [|e log IH]; simpl; intros es H Hi; [contradiction|].
+  destruct Hi as [E|Hi]; [subst e; reflexivity|].
+  destruct e; try discriminate; auto.
+Qed.
 Lemma batches_app a b : batches (a ++ b) = batches a ++ batches b.
 Proof.
   induction a as [|e a IH]; simpl; [reflexivity|].
-  destruct e as [w m| | | | | |]; try exact IH. destruct m; try exact IH.
+  destruct e as [w m| | | | | | | | |]; try exact IH. destruct m; try exact IH.
   rewrite IH, app_assoc. reflexivity.
 Qed.
 
@@ -137,7 +191,7 @@ Ltac quiet_tac es :=
   let e := fresh "e" in let IH := fresh "IH" in let H := fresh "H" in
   induction es as [|e es IH]; simpl; intro H; [reflexivity|];
   apply andb_prop in H; destruct H as [H1 H2];
-  destruct e as [w ?|? ?| |?|w ?|w ?|]; try discriminate; destruct w; try discriminate; simpl; auto.
+  destruct e as [w ?|? ?| |?|w ?|w ?| |w ?| |]; try discriminate; destruct w; try discriminate; simpl; auto.
 
 Lemma quiet_hands es : forallb quiet es = true -> hands es = [].
 Proof. quiet_tac es. Qed.
@@ -147,6 +201,13 @@ Lemma quiet_batches es : forallb quiet es = true -> batches es = [].
 Proof. quiet_tac es. Qed.
 Lemma quiet_starts es : forallb quiet es = true -> starts_of_cmds es = [].
 Proof. quiet_tac es. Qed.
+
+Lemma quiet_nodrop es : forallb quiet es = true -> forallb nodrop es = true.
+Proof.
+  induction es as [|e es IH]; simpl; intro H; [reflexivity|].
+  apply andb_prop in H. destruct H as [H1 H2]. rewrite (IH H2), andb_true_r.
+  destruct e; try discriminate; reflexivity.
+Qed.
 
 Lemma quiet_grp_starts k (l : list (nat * cmdid)) :
   forallb quiet (map (fun jc => EStart (WGrp k (fst jc)) (snd jc)) l) = true.
@@ -161,8 +222,9 @@ Section Walk.
   Definition dae_ev (w : who) (st : option cmdid) (e : ev) : option (option cmdid) :=
     match e with
     | EEnd w' c => if who_eqb w w' then match st with None => Some (Some c) | Some _ => None end else Some st
-    | ERecv w' m => if who_eqb w w' then match st with Some c => if msg_eqb m (cres c) then Some None else None | None => None end
-                    else Some st
+    | ERecv w' m | EDrop w' m =>
+      if who_eqb w w' then match st with Some c => if msg_eqb m (cres c) then Some None else None | None => None end
+      else Some st
     | _ => Some st
     end.
   Fixpoint dae (w : who) (st : option cmdid) (log : list ev) : option (option cmdid) :=
@@ -181,17 +243,20 @@ Section Walk.
   Lemma dae_sound w : forall log st, dae w st log <> None -> delivered_after_end cres w st log = true.
   Proof.
     induction log as [|e log IH]; intros st H; simpl in *; [reflexivity|].
-    destruct e as [w' m|? ?| |?|w' c|w' c|]; simpl in H; try (apply IH; exact H).
+    destruct e as [w' m|? ?| |?|w' c|w' c| |w' m| |]; simpl in H; try (apply IH; exact H).
     - destruct (who_eqb w w'); [|apply IH; exact H].
       destruct st as [c|]; [|congruence].
       destruct (msg_eqb m (cres c)); [|congruence]. simpl. apply IH; exact H.
     - destruct (who_eqb w w'); [|apply IH; exact H].
       destruct st as [c'|]; [congruence|]. apply IH; exact H.
+    - destruct (who_eqb w w'); [|apply IH; exact H].
+      destruct st as [c|]; [|congruence].
+      destruct (msg_eqb m (cres c)); [|congruence]. simpl. apply IH; exact H.
   Qed.
 
   (* events that do not concern dispatcher goroutine j *)
   Definition touch (j : nat) (e : ev) : bool :=
-    match e with ERecv (WCmd j') _ | EEnd (WCmd j') _ => Nat.eqb j j' | _ => false end.
+    match e with ERecv (WCmd j') _ | EEnd (WCmd j') _ | EDrop (WCmd j') _ => Nat.eqb j j' | _ => false end.
   Definition notouch (j : nat) (es : list ev) : bool := forallb (fun e => negb (touch j e)) es.
 
   Lemma notouch_dae j : forall es st, notouch j es = true -> dae (WCmd j) st es = Some st.
@@ -199,39 +264,39 @@ Section Walk.
     induction es as [|e es IH]; intros st H; simpl in *; [reflexivity|].
     apply andb_prop in H. destruct H as [H1 H2].
     assert (dae_ev (WCmd j) st e = Some st) as E.
-    { destruct e as [w ?|? ?| |?|w ?|w ?|]; simpl; try reflexivity; destruct w; simpl in *; try reflexivity;
+    { destruct e as [w ?|? ?| |?|w ?|w ?| |w ?| |]; simpl; try reflexivity; destruct w; simpl in *; try reflexivity;
         apply negb_true_iff in H1; rewrite H1; reflexivity. }
     rewrite E. apply IH. exact H2.
   Qed.
 
-  Lemma notouch_recv j : forall es, notouch j es = true -> recv_from (WCmd j) es = [].
+  Lemma notouch_sent j : forall es, notouch j es = true -> sent_from (WCmd j) es = [].
   Proof.
     induction es as [|e es IH]; intros H; simpl in *; [reflexivity|].
     apply andb_prop in H. destruct H as [H1 H2]. rewrite (IH H2), app_nil_r.
-    destruct e as [w ?|? ?| |?|w ?|w ?|]; simpl; try reflexivity; destruct w; simpl in *; try reflexivity.
-    apply negb_true_iff in H1. rewrite H1. reflexivity.
+    destruct e as [w ?|? ?| |?|w ?|w ?| |w ?| |]; simpl; try reflexivity; destruct w; simpl in *; try reflexivity;
+      apply negb_true_iff in H1; rewrite H1; reflexivity.
   Qed.
 
   Lemma quiet_notouch j es : forallb quiet es = true -> notouch j es = true.
   Proof.
     induction es as [|e es IH]; simpl; intro H; [reflexivity|].
     apply andb_prop in H. destruct H as [H1 H2]. rewrite (IH H2), andb_true_r.
-    destruct e as [w ?|? ?| |?|w ?|w ?|]; try discriminate; destruct w; try discriminate; reflexivity.
+    destruct e as [w ?|? ?| |?|w ?|w ?| |w ?| |]; try discriminate; destruct w; try discriminate; reflexivity.
   Qed.
 
   (* what the log says about dispatcher goroutine j, given its thread state *)
   Definition thr_ok (j : nat) (t : option cthread) (log : list ev) : Prop :=
     match t with
-    | Some (CRunning c) => dae (WCmd j) None log = Some None /\ recv_from (WCmd j) log = []
-    | Some (CSending c m) => dae (WCmd j) None log = Some (Some c) /\ recv_from (WCmd j) log = [] /\ m = cres c
-    | Some (CDone c) => dae (WCmd j) None log = Some None /\ length (recv_from (WCmd j) log) = 1
-    | None => dae (WCmd j) None log = Some None /\ recv_from (WCmd j) log = []
+    | Some (CRunning c) => dae (WCmd j) None log = Some None /\ sent_from (WCmd j) log = []
+    | Some (CSending c m) => dae (WCmd j) None log = Some (Some c) /\ sent_from (WCmd j) log = [] /\ m = cres c
+    | Some (CDone c) => dae (WCmd j) None log = Some None /\ length (sent_from (WCmd j) log) = 1
+    | None => dae (WCmd j) None log = Some None /\ sent_from (WCmd j) log = []
     end.
 
   Lemma thr_ok_frame j t log es : notouch j es = true -> thr_ok j t log -> thr_ok j t (log ++ es).
   Proof.
     intros Hn H. unfold thr_ok in *.
-    destruct t as [[c|c m|c]|]; rewrite dae_app, recv_from_app, (notouch_recv _ _ Hn), app_nil_r.
+    destruct t as [[c|c m|c]|]; rewrite dae_app, sent_from_app, (notouch_sent _ _ Hn), app_nil_r.
     - destruct H as [Hd Hr]. rewrite Hd, notouch_dae by exact Hn. auto.
     - destruct H as [Hd [Hr Hm]]. rewrite Hd, notouch_dae by exact Hn. auto.
     - destruct H as [Hd Hr]. rewrite Hd, notouch_dae by exact Hn. auto.
@@ -251,32 +316,43 @@ Section C02.
   Variable cres : cmdid -> msg.
 
   (* ---------------------------------------------------------------- *)
-  (* the effect of one step on (loop pc, dispatcher goroutines, log)   *)
+  (* the effect of one step on (loop pc, dispatcher goroutines, Init    *)
+  (* forwarder, cancellation flag, log)                                  *)
 
-  Inductive eff (lp : looppc) (cmds : list cthread) : looppc -> list cthread -> list ev -> Prop :=
-  | eff_recv_other w m : lp = LIdle -> (forall j, w <> WCmd j) -> eff lp cmds (LGot m) cmds [ERecv w m]
+  Inductive eff (lp : looppc) (cmds : list cthread) (ifw : option cmdid) (ctx : bool)
+    : looppc -> list cthread -> option cmdid -> bool -> list ev -> Prop :=
+  | eff_recv_other w m : lp = LIdle -> (forall j, w <> WCmd j) -> eff lp cmds ifw ctx (LGot m) cmds ifw ctx [ERecv w m]
   | eff_recv_cmd j c m : lp = LIdle -> nth_error cmds j = Some (CSending c m) ->
-                         eff lp cmds (LGot m) (set_nth cmds j (CDone c)) [ERecv (WCmd j) m]
-  | eff_nil : lp = LGot MNil -> eff lp cmds LIdle cmds []
-  | eff_batch cs : lp = LGot (MBatch cs) -> eff lp cmds (LBatch cs) cmds []
-  | eff_upd m c : lp = LGot m -> updatable m = true -> eff lp cmds (LCmdSend c) cmds [EUpdate m c]
-  | eff_hand_none : lp = LCmdSend None -> eff lp cmds LView cmds []
+                         eff lp cmds ifw ctx (LGot m) (set_nth cmds j (CDone c)) ifw ctx [ERecv (WCmd j) m]
+  | eff_nil : lp = LGot MNil -> eff lp cmds ifw ctx LIdle cmds ifw ctx []
+  | eff_batch cs : lp = LGot (MBatch cs) -> eff lp cmds ifw ctx (LBatch cs) cmds ifw ctx []
+  | eff_upd m c : lp = LGot m -> updatable m = true -> eff lp cmds ifw ctx (LCmdSend c) cmds ifw ctx [EUpdate m c]
+  | eff_hand_none : lp = LCmdSend None -> eff lp cmds ifw ctx LView cmds ifw ctx []
   | eff_hand_some c : lp = LCmdSend (Some c) ->
-                      eff lp cmds LView (cmds ++ [CRunning c]) [EHand c; EStart (WCmd (length cmds)) c]
-  | eff_bend : lp = LBatch [] -> eff lp cmds LIdle cmds []
-  | eff_bnone cs : lp = LBatch (None :: cs) -> eff lp cmds (LBatch cs) cmds []
+                      eff lp cmds ifw ctx LView (cmds ++ [CRunning c]) ifw ctx [EHand c; EStart (WCmd (length cmds)) c]
+  | eff_bend : lp = LBatch [] -> eff lp cmds ifw ctx LIdle cmds ifw ctx []
+  | eff_bnone cs : lp = LBatch (None :: cs) -> eff lp cmds ifw ctx (LBatch cs) cmds ifw ctx []
   | eff_bsome c cs : lp = LBatch (Some c :: cs) ->
-                     eff lp cmds (LBatch cs) (cmds ++ [CRunning c]) [EHand c; EStart (WCmd (length cmds)) c]
-  | eff_view : lp = LView -> eff lp cmds LIdle cmds [EView]
+                     eff lp cmds ifw ctx (LBatch cs) (cmds ++ [CRunning c]) ifw ctx [EHand c; EStart (WCmd (length cmds)) c]
+  | eff_view : lp = LView -> eff lp cmds ifw ctx LIdle cmds ifw ctx [EView]
   | eff_finish j c : nth_error cmds j = Some (CRunning c) ->
-                     eff lp cmds lp (set_nth cmds j (CSending c (cres c))) [EEnd (WCmd j) c]
-  | eff_quiet es : forallb quiet es = true -> eff lp cmds lp cmds es
-  | eff_exit : eff lp cmds LExited cmds [EExit].
+                     eff lp cmds ifw ctx lp (set_nth cmds j (CSending c (cres c))) ifw ctx [EEnd (WCmd j) c]
+  | eff_quiet es : forallb quiet es = true -> eff lp cmds ifw ctx lp cmds ifw ctx es
+  | eff_exit : eff lp cmds ifw ctx LExited cmds ifw ctx [EExit]
+  | eff_fail : eff lp cmds ifw ctx LExited cmds ifw ctx [EFail; EExit]
+  | eff_cancel : ctx = false -> eff lp cmds ifw ctx lp cmds ifw true [ECancel]
+  | eff_drop_other w m : ctx = true -> (forall j, w <> WCmd j) -> eff lp cmds ifw ctx lp cmds ifw ctx [EDrop w m]
+  | eff_drop_cmd j c m : ctx = true -> nth_error cmds j = Some (CSending c m) ->
+                         eff lp cmds ifw ctx lp (set_nth cmds j (CDone c)) ifw ctx [EDrop (WCmd j) m]
+  | eff_handinit c : ifw = Some c ->
+                     eff lp cmds ifw ctx lp (cmds ++ [CRunning c]) None ctx [EHand c; EStart (WCmd (length cmds)) c]
+  | eff_ifwgiveup c : ifw = Some c -> ctx = true -> eff lp cmds ifw ctx lp cmds None ctx [].
 
   Lemma step_eff s l s' : step M upd cres s l = Some s' ->
-    exists es, c_log s' = c_log s ++ es /\ eff (c_loop s) (c_cmds s) (c_loop s') (c_cmds s') es.
+    exists es, c_log s' = c_log s ++ es /\
+               eff (c_loop s) (c_cmds s) (c_ifw s) (c_ctx s) (c_loop s') (c_cmds s') (c_ifw s') (c_ctx s') es.
   Proof.
-    intro H. destruct l as [w| | | |j|k|k|k j| | |]; simpl in H.
+    intro H. destruct l as [w| | | |j|k|k|k j| | | |w| | |]; simpl in H.
     - (* LbRecv *)
       destruct (c_loop s) eqn:El; try discriminate.
       destruct (offer M s w) as [m|] eqn:Eo; try discriminate. inv H.
@@ -336,14 +412,43 @@ Section C02.
       destruct (nth_error ms j) as [[cj|cj m|cj]|]; try discriminate. inv H. simpl.
       eexists; split; [reflexivity|]. apply eff_quiet. reflexivity.
     - (* LbCancel *)
-      destruct (c_ctx s); try discriminate. inv H. simpl.
-      exists []. split; [symmetry; apply app_nil_r|]. apply eff_quiet. reflexivity.
+      assert (c_ctx s = false) as Ec by (destruct (c_ctx s); [discriminate|reflexivity]).
+      rewrite Ec in H. inv H. simpl.
+      eexists; split; [reflexivity|]. apply eff_cancel. exact Ec.
     - (* LbDispExit *)
-      destruct (c_ctx s && c_disp s); try discriminate. inv H. simpl.
+      assert (c_ctx s = true) as Ec by (destruct (c_ctx s); [reflexivity|discriminate]).
+      rewrite Ec in H. destruct (c_disp s); try discriminate. inv H. simpl. rewrite Ec.
       exists []. split; [symmetry; apply app_nil_r|]. apply eff_quiet. reflexivity.
     - (* LbLoopExit *)
-      destruct (c_ctx s); try discriminate.
-      destruct (c_loop s); try discriminate; inv H; simpl; eexists; (split; [reflexivity|]); apply eff_exit.
+      destruct (c_ctx s) eqn:Ec; try discriminate.
+      destruct (c_loop s); try discriminate; inv H; simpl; rewrite Ec; eexists; (split; [reflexivity|]); apply eff_exit.
+    - (* LbGiveUp *)
+      assert (c_ctx s = true) as Ec by (destruct (c_ctx s); [reflexivity|discriminate]).
+      rewrite Ec in H.
+      destruct (offer M s w) as [m|] eqn:Eo; try discriminate. inv H.
+      destruct w as [i|j|k|k j]; simpl in Eo; simpl.
+      + destruct (nth_error (c_senders s) i) as [[|m' r]|]; try discriminate. inv Eo. simpl.
+        eexists; split; [reflexivity|]. apply eff_drop_other; [exact Ec|intros j; discriminate].
+      + destruct (nth_error (c_cmds s) j) as [[c|c m'|c]|] eqn:En; try discriminate. inv Eo. simpl.
+        rewrite app_nil_r. eexists; split; [reflexivity|]. apply eff_drop_cmd; [exact Ec|exact En].
+      + destruct (nth_error (c_seqs s) k) as [t|]; try discriminate.
+        destruct (s_phase t); try discriminate. inv Eo. simpl. rewrite app_nil_r.
+        eexists; split; [reflexivity|]. apply eff_drop_other; [exact Ec|intros j; discriminate].
+      + destruct (nth_error (c_seqs s) k) as [t|]; try discriminate.
+        destruct (s_phase t) as [| | |c ms]; try discriminate.
+        destruct (nth_error ms j) as [[c'|c' m'|c']|]; try discriminate. inv Eo. simpl. rewrite app_nil_r.
+        eexists; split; [reflexivity|]. apply eff_drop_other; [exact Ec|intros j'; discriminate].
+    - (* LbHandInit *)
+      destruct (c_ifw s) as [c|] eqn:Ei; try discriminate.
+      destruct (c_disp s); try discriminate. inv H. simpl.
+      eexists; split; [reflexivity|]. apply eff_handinit. reflexivity.
+    - (* LbIfwGiveUp *)
+      destruct (c_ifw s) as [c|] eqn:Ei; try discriminate.
+      assert (c_ctx s = true) as Ec by (destruct (c_ctx s); [reflexivity|discriminate]).
+      rewrite Ec in H. inv H. simpl. rewrite Ec.
+      exists []. split; [symmetry; apply app_nil_r|]. eapply eff_ifwgiveup; reflexivity.
+    - (* LbLoopFail *)
+      destruct (c_loop s); try discriminate; inv H; simpl; eexists; (split; [reflexivity|]); apply eff_fail.
   Qed.
 
   (* ---------------------------------------------------------------- *)
@@ -357,31 +462,46 @@ Section C02.
     | _ => []
     end.
 
-  Definition I_owed (ic : option cmdid) (lp : looppc) (log : list ev) : Prop :=
-    forall x, match lp with
-              | LExited => cnt x (hands log) <= cnt x (owed ic log)
-              | _ => cnt x (owed ic log) = cnt x (hands log) + cnt x (pending lp)
-              end.
+  (* the Init forwarder's command, while it waits *)
+  Definition ifwl (o : option cmdid) : list cmdid := match o with Some c => [c] | None => [] end.
 
-  Lemma I_owed_eff ic lp cmds lp' cmds' es log :
-    eff lp cmds lp' cmds' es -> I_owed ic lp log -> I_owed ic lp' (log ++ es).
+  (* the counting is exact while the loop runs and the context is not cancelled (nobody can have given up) *)
+  Definition strict (lp : looppc) (ctx : bool) : bool := match lp with LExited => false | _ => negb ctx end.
+
+  Definition I_owed (ic : option cmdid) (lp : looppc) (ifw : option cmdid) (ctx : bool) (log : list ev) : Prop :=
+    forall x,
+      cnt x (hands log) + cnt x (pending lp) + cnt x (ifwl ifw) <= cnt x (owed ic log) /\
+      (strict lp ctx = true -> cnt x (owed ic log) = cnt x (hands log) + cnt x (pending lp) + cnt x (ifwl ifw)).
+
+  Lemma strict_true lp : strict lp true = false.
+  Proof. destruct lp; reflexivity. Qed.
+
+  Lemma I_owed_eff ic lp cmds ifw ctx lp' cmds' ifw' ctx' es log :
+    eff lp cmds ifw ctx lp' cmds' ifw' ctx' es -> I_owed ic lp ifw ctx log -> I_owed ic lp' ifw' ctx' (log ++ es).
   Proof.
-    intros He H x. specialize (H x).
+    intros He H x. destruct (H x) as [Hle Heq]. clear H.
     inversion He; subst; rewrite owed_app, hands_app, cnt_app.
-    - (* recv other *) destruct m; simpl in *; rewrite ?app_nil_r; lia.
-    - destruct m; simpl in *; rewrite ?app_nil_r; lia.
-    - simpl in *; lia.
-    - simpl in *; lia.
-    - destruct m; try discriminate; destruct c; simpl in *; lia.
-    - simpl in *; lia.
-    - simpl in *; lia.
-    - simpl in *; lia.
-    - simpl in *; lia.
-    - unfold pending, ConcSpec.somes in *. simpl in *. lia.
-    - simpl in *; lia.
-    - destruct lp'; simpl in *; lia.
-    - rewrite (quiet_returned es), (quiet_batches es), (quiet_hands es) by assumption. destruct lp'; simpl in *; lia.
-    - destruct lp; simpl in *; lia.
+    - (* recv other *) destruct m; simpl in *; rewrite ?app_nil_r; split; try intro Hs; try specialize (Heq Hs); lia.
+    - destruct m; simpl in *; rewrite ?app_nil_r; split; try intro Hs; try specialize (Heq Hs); lia.
+    - simpl in *; split; try intro Hs; try specialize (Heq Hs); lia.
+    - simpl in *; split; try intro Hs; try specialize (Heq Hs); lia.
+    - destruct m; try discriminate; destruct c; simpl in *; split; try intro Hs; try specialize (Heq Hs); lia.
+    - simpl in *; split; try intro Hs; try specialize (Heq Hs); lia.
+    - simpl in *; split; try intro Hs; try specialize (Heq Hs); lia.
+    - simpl in *; split; try intro Hs; try specialize (Heq Hs); lia.
+    - simpl in *; split; try intro Hs; try specialize (Heq Hs); lia.
+    - unfold pending, ConcSpec.somes in *. simpl in *. split; try intro Hs; try specialize (Heq Hs); lia.
+    - simpl in *; split; try intro Hs; try specialize (Heq Hs); lia.
+    - (* finish *) simpl; split; try intro Hs; try specialize (Heq Hs); lia.
+    - (* quiet *) rewrite (quiet_returned es), (quiet_batches es), (quiet_hands es) by assumption.
+      simpl; split; try intro Hs; try specialize (Heq Hs); lia.
+    - (* exit *) simpl; split; [lia|discriminate].
+    - (* fail *) simpl; split; [lia|discriminate].
+    - (* cancel *) rewrite strict_true. simpl; split; [lia|discriminate].
+    - (* drop *) rewrite strict_true. simpl; split; [lia|discriminate].
+    - rewrite strict_true. simpl; split; [lia|discriminate].
+    - (* handinit *) simpl in *; split; try intro Hs; try specialize (Heq Hs); lia.
+    - (* ifwgiveup *) rewrite strict_true. simpl in *; split; [lia|discriminate].
   Qed.
 
   (* ---------------------------------------------------------------- *)
@@ -390,8 +510,8 @@ Section C02.
   Definition I_started (cmds : list cthread) (log : list ev) : Prop :=
     starts_of_cmds log = combine (seq 0 (length (hands log))) (hands log) /\ map cmd_of cmds = hands log.
 
-  Lemma I_started_eff lp cmds lp' cmds' es log :
-    eff lp cmds lp' cmds' es -> I_started cmds log -> I_started cmds' (log ++ es).
+  Lemma I_started_eff lp cmds ifw ctx lp' cmds' ifw' ctx' es log :
+    eff lp cmds ifw ctx lp' cmds' ifw' ctx' es -> I_started cmds log -> I_started cmds' (log ++ es).
   Proof.
     intros He [H1 H2]. unfold I_started.
     assert (length cmds = length (hands log)) as Hlen by (rewrite <- H2, map_length; reflexivity).
@@ -401,6 +521,8 @@ Section C02.
     - rewrite combine_seq_snoc, map_app, H1, H2, Hlen. simpl. auto.
     - split; [assumption|]. rewrite <- H2. eapply map_set_nth; [eassumption|reflexivity].
     - rewrite (quiet_starts es), (quiet_hands es), !app_nil_r by assumption. split; assumption.
+    - split; [assumption|]. rewrite <- H2. eapply map_set_nth; [eassumption|reflexivity].
+    - rewrite combine_seq_snoc, map_app, H1, H2, Hlen. simpl. auto.
   Qed.
 
   (* ---------------------------------------------------------------- *)
@@ -422,8 +544,22 @@ Section C02.
       apply thr_ok_frame; [apply Hn|exact Hj].
   Qed.
 
-  Lemma I_res_eff lp cmds lp' cmds' es log :
-    eff lp cmds lp' cmds' es -> I_res cmds log -> I_res cmds' (log ++ es).
+  (* a Send of dispatcher goroutine j completes: its result is taken (e = ERecv) or dropped (e = EDrop) *)
+  Lemma I_res_sent cmds log j c m e :
+    (e = ERecv (WCmd j) m \/ e = EDrop (WCmd j) m) ->
+    nth_error cmds j = Some (CSending c m) -> I_res cmds log -> I_res (set_nth cmds j (CDone c)) (log ++ [e]).
+  Proof.
+    intros He Hn H j'. destruct (Nat.eq_dec j j') as [E|E].
+    - subst j'. rewrite (nth_error_set_nth_eq _ _ _ _ Hn).
+      pose proof (H j) as Hj. rewrite Hn in Hj. simpl in Hj. destruct Hj as [Hd [Hr Hm]].
+      simpl. rewrite dae_app, Hd, sent_from_app, Hr. subst m.
+      destruct He; subst e; simpl; rewrite Nat.eqb_refl, msg_eqb_refl; split; reflexivity.
+    - rewrite nth_error_set_nth_neq by exact E. apply thr_ok_frame; [|apply H].
+      unfold notouch. destruct He; subst e; simpl; rewrite (proj2 (Nat.eqb_neq j' j)) by congruence; reflexivity.
+  Qed.
+
+  Lemma I_res_eff lp cmds ifw ctx lp' cmds' ifw' ctx' es log :
+    eff lp cmds ifw ctx lp' cmds' ifw' ctx' es -> I_res cmds log -> I_res cmds' (log ++ es).
   Proof.
     intros He H.
     inversion He; subst; try (intro j'; apply thr_ok_frame; [reflexivity|apply H]).
@@ -431,23 +567,23 @@ Section C02.
       intro j'. apply thr_ok_frame; [|apply H]. unfold notouch. simpl.
       destruct w; try reflexivity. exfalso. eapply H1. reflexivity.
     - (* recv cmd *)
-      intro j'. destruct (Nat.eq_dec j j') as [E|E].
-      + subst j'. rewrite (nth_error_set_nth_eq _ _ _ _ H1).
-        pose proof (H j) as Hj. rewrite H1 in Hj. simpl in Hj. destruct Hj as [Hd [Hr Hm]].
-        simpl. rewrite dae_app, Hd, recv_from_app, Hr. simpl. rewrite Nat.eqb_refl. subst m.
-        rewrite msg_eqb_refl. split; reflexivity.
-      + rewrite nth_error_set_nth_neq by exact E. apply thr_ok_frame; [|apply H].
-        unfold notouch. simpl. rewrite (proj2 (Nat.eqb_neq j' j)) by congruence. reflexivity.
+      eapply I_res_sent; [left; reflexivity|eassumption|exact H].
     - apply I_res_snoc; [intro; reflexivity|exact H].
     - apply I_res_snoc; [intro; reflexivity|exact H].
     - (* finish *)
       intro j'. destruct (Nat.eq_dec j j') as [E|E].
       + subst j'. rewrite (nth_error_set_nth_eq _ _ _ _ H0).
         pose proof (H j) as Hj. rewrite H0 in Hj. simpl in Hj. destruct Hj as [Hd Hr].
-        simpl. rewrite dae_app, Hd, recv_from_app, Hr. simpl. rewrite Nat.eqb_refl. auto.
+        simpl. rewrite dae_app, Hd, sent_from_app, Hr. simpl. rewrite Nat.eqb_refl. auto.
       + rewrite nth_error_set_nth_neq by exact E. apply thr_ok_frame; [|apply H].
         unfold notouch. simpl. rewrite (proj2 (Nat.eqb_neq j' j)) by congruence. reflexivity.
     - intro j'. apply thr_ok_frame; [apply quiet_notouch; assumption|apply H].
+    - (* drop other *)
+      intro j'. apply thr_ok_frame; [|apply H]. unfold notouch. simpl.
+      destruct w; try reflexivity. exfalso. eapply H1. reflexivity.
+    - (* drop cmd *)
+      eapply I_res_sent; [right; reflexivity|eassumption|exact H].
+    - (* handinit *) apply I_res_snoc; [intro; reflexivity|exact H].
   Qed.
 
   (* ---------------------------------------------------------------- *)
@@ -463,8 +599,8 @@ Section C02.
     destruct e; try discriminate; reflexivity.
   Qed.
 
-  Lemma I_upd_eff lp cmds lp' cmds' es log :
-    eff lp cmds lp' cmds' es -> I_upd log -> I_upd (log ++ es).
+  Lemma I_upd_eff lp cmds ifw ctx lp' cmds' ifw' ctx' es log :
+    eff lp cmds ifw ctx lp' cmds' ifw' ctx' es -> I_upd log -> I_upd (log ++ es).
   Proof.
     intros He H. unfold I_upd in *. rewrite forallb_app, H. simpl.
     inversion He; subst; simpl; try reflexivity.
@@ -473,21 +609,46 @@ Section C02.
   Qed.
 
   (* ---------------------------------------------------------------- *)
+  (* I_ndc: a Send gives up only after the cancellation                *)
+
+  Definition I_ndc (ctx : bool) (log : list ev) : Prop :=
+    no_drop_before_cancel log = true /\ (ctx = true -> In ECancel log).
+
+  Lemma I_ndc_eff lp cmds ifw ctx lp' cmds' ifw' ctx' es log :
+    eff lp cmds ifw ctx lp' cmds' ifw' ctx' es -> I_ndc ctx log -> I_ndc ctx' (log ++ es).
+  Proof.
+    intros He [H1 H2]. unfold I_ndc.
+    inversion He; subst;
+      try (split; [apply ndc_app_nodrop; [exact H1|reflexivity]|intro Hc; apply in_or_app; left; apply H2; exact Hc]).
+    - (* quiet *) split; [apply ndc_app_nodrop; [exact H1|apply quiet_nodrop; assumption]|].
+      intro Hc; apply in_or_app; left; apply H2; exact Hc.
+    - (* cancel *) split; [apply ndc_app_nodrop; [exact H1|reflexivity]|].
+      intros _. apply in_or_app. right. left. reflexivity.
+    - (* drop *) split; [apply ndc_app_cancelled; [exact H1|apply H2; reflexivity]|].
+      intro Hc; apply in_or_app; left; apply H2; exact Hc.
+    - split; [apply ndc_app_cancelled; [exact H1|apply H2; reflexivity]|].
+      intro Hc; apply in_or_app; left; apply H2; exact Hc.
+  Qed.
+
+  (* ---------------------------------------------------------------- *)
   (* the invariant on states, lifted over run                          *)
 
   Definition Inv (ic : option cmdid) (s : cstate M) : Prop :=
-    I_owed ic (c_loop s) (c_log s) /\ I_started (c_cmds s) (c_log s) /\
-    I_res (c_cmds s) (c_log s) /\ I_upd (c_log s).
+    I_owed ic (c_loop s) (c_ifw s) (c_ctx s) (c_log s) /\ I_started (c_cmds s) (c_log s) /\
+    I_res (c_cmds s) (c_log s) /\ I_upd (c_log s) /\ I_ndc (c_ctx s) (c_log s).
 
   Lemma Inv_step ic s l s' : Inv ic s -> step M upd cres s l = Some s' -> Inv ic s'.
   Proof.
-    intros [Ho [Hs [Hr Hu]]] Hstep. destruct (step_eff _ _ _ Hstep) as [es [Hlog He]].
+    intros [Ho [Hs [Hr [Hu Hn]]]] Hstep. destruct (step_eff _ _ _ Hstep) as [es [Hlog He]].
     unfold Inv. rewrite Hlog. repeat split.
+    - eapply I_owed_eff; eassumption.
     - eapply I_owed_eff; eassumption.
     - eapply I_started_eff; eassumption.
     - eapply I_started_eff; eassumption.
     - eapply I_res_eff; eassumption.
     - eapply I_upd_eff; eassumption.
+    - eapply I_ndc_eff; eassumption.
+    - eapply I_ndc_eff; eassumption.
   Qed.
 
   Lemma Inv_run ic : forall sched s, Inv ic s -> Inv ic (run M upd cres s sched).
@@ -502,8 +663,9 @@ Section C02.
 
   Lemma Inv_init : Inv init_cmd (init_state M m0 init_cmd scripts).
   Proof.
-    unfold Inv, init_state; simpl. repeat split.
-    - intro x. unfold owed. destruct init_cmd; simpl; lia.
+    unfold Inv, init_state; simpl. repeat split; try discriminate.
+    - unfold owed. destruct init_cmd; simpl; lia.
+    - unfold owed. destruct init_cmd; simpl; lia.
     - intro j. destruct j; simpl; auto.
   Qed.
 
@@ -522,20 +684,25 @@ Section C02.
     intros sched s. destruct (Inv_reach sched) as [Ho _]. fold s in Ho.
     unfold handed_owed.
     destruct (sub_multiset_cnt (hands (c_log s)) (owed init_cmd (c_log s))) as [r [Hr _]].
-    { intro x. specialize (Ho x). destruct (c_loop s); lia. }
+    { intro x. destruct (Ho x) as [Hle _]. lia. }
     rewrite Hr. reflexivity.
   Qed.
 
+  (* at the select, the context not cancelled: everything owed has been handed over, except Init's command while
+     its forwarder goroutine still waits for the dispatcher *)
   Lemma all_handed_when_idle : forall sched,
     let s := run M upd cres (init_state M m0 init_cmd scripts) sched in
-    c_loop s = LIdle -> all_handed init_cmd (c_log s) = true.
+    c_loop s = LIdle -> c_ctx s = false -> all_handed init_cmd (c_ifw s) (c_log s) = true.
   Proof.
-    intros sched s Hidle. destruct (Inv_reach sched) as [Ho _]. fold s in Ho.
-    unfold all_handed. unfold I_owed in Ho. rewrite Hidle in Ho. simpl in Ho.
+    intros sched s Hidle Hctx. destruct (Inv_reach sched) as [Ho _]. fold s in Ho.
+    unfold all_handed. unfold I_owed in Ho. rewrite Hidle, Hctx in Ho. simpl in Ho.
     destruct (sub_multiset_cnt (hands (c_log s)) (owed init_cmd (c_log s))) as [r [Hr Hc]].
-    { intro x. specialize (Ho x). lia. }
-    rewrite Hr. rewrite (cnt_nil_all r); [reflexivity|].
-    intro x. specialize (Ho x). specialize (Hc x). lia.
+    { intro x. destruct (Ho x) as [Hle _]. lia. }
+    rewrite Hr. destruct (c_ifw s) as [c|]; simpl in Ho.
+    - rewrite (cnt_single_all c r); [apply Nat.eqb_refl|].
+      intro x. destruct (Ho x) as [_ Heq]. specialize (Heq eq_refl). specialize (Hc x). simpl. lia.
+    - rewrite (cnt_nil_all r); [reflexivity|].
+      intro x. destruct (Ho x) as [_ Heq]. specialize (Heq eq_refl). specialize (Hc x). lia.
   Qed.
 
   Lemma started_once_thm : forall sched,
@@ -555,28 +722,50 @@ Section C02.
   Lemma results_once_thm : forall sched,
     let s := run M upd cres (init_state M m0 init_cmd scripts) sched in
     results_once cres (c_log s) = true /\
-    (forall j c, nth_error (c_cmds s) j = Some (CDone c) -> length (recv_from (WCmd j) (c_log s)) = 1) /\
+    (forall j c, nth_error (c_cmds s) j = Some (CDone c) -> length (sent_from (WCmd j) (c_log s)) = 1) /\
     (forall j c m, nth_error (c_cmds s) j = Some (CRunning c) \/ nth_error (c_cmds s) j = Some (CSending c m) ->
-                   recv_from (WCmd j) (c_log s) = []).
+                   sent_from (WCmd j) (c_log s) = []) /\
+    no_drop_before_cancel (c_log s) = true.
   Proof.
-    intros sched s. destruct (Inv_reach sched) as [_ [_ [Hr _]]]. fold s in Hr.
-    split; [|split].
+    intros sched s. destruct (Inv_reach sched) as [_ [_ [Hr [_ [Hn _]]]]]. fold s in Hr, Hn.
+    split; [|split; [|split]].
     - unfold results_once. apply forallb_forall. intros j _. specialize (Hr j).
       apply andb_true_intro. unfold thr_ok in Hr.
+      pose proof (recv_le_sent (WCmd j) (c_log s)) as Hle.
       destruct (nth_error (c_cmds s) j) as [[c|c m|c]|].
-      + destruct Hr as [Hd Hrc]. split; [apply dae_sound; congruence|rewrite Hrc; reflexivity].
-      + destruct Hr as [Hd [Hrc _]]. split; [apply dae_sound; congruence|rewrite Hrc; reflexivity].
-      + destruct Hr as [Hd Hrc]. split; [apply dae_sound; congruence|rewrite Hrc; reflexivity].
-      + destruct Hr as [Hd Hrc]. split; [apply dae_sound; congruence|rewrite Hrc; reflexivity].
-    - intros j c Hn. specialize (Hr j). rewrite Hn in Hr. apply Hr.
-    - intros j c m [Hn|Hn]; specialize (Hr j); rewrite Hn in Hr; apply Hr.
+      + destruct Hr as [Hd Hrc]. split; [apply dae_sound; congruence|rewrite Hrc in Hle; apply Nat.leb_le; simpl in Hle; lia].
+      + destruct Hr as [Hd [Hrc _]]. split; [apply dae_sound; congruence|rewrite Hrc in Hle; apply Nat.leb_le; simpl in Hle; lia].
+      + destruct Hr as [Hd Hrc]. split; [apply dae_sound; congruence|apply Nat.leb_le; lia].
+      + destruct Hr as [Hd Hrc]. split; [apply dae_sound; congruence|rewrite Hrc in Hle; apply Nat.leb_le; simpl in Hle; lia].
+    - intros j c Hnth. specialize (Hr j). rewrite Hnth in Hr. apply Hr.
+    - intros j c m [Hnth|Hnth]; specialize (Hr j); rewrite Hnth in Hr; apply Hr.
+    - exact Hn.
+  Qed.
+
+  (* while the context is not cancelled no Send gives up: the result of a finished goroutine WAS delivered *)
+  Lemma result_delivered_before_cancel : forall sched,
+    let s := run M upd cres (init_state M m0 init_cmd scripts) sched in
+    ~ In ECancel (c_log s) ->
+    forall j c, nth_error (c_cmds s) j = Some (CDone c) -> length (recv_from (WCmd j) (c_log s)) = 1.
+  Proof.
+    intros sched s Hnc j c Hnth.
+    destruct (results_once_thm sched) as [_ [Hd [_ Hn]]]. fold s in Hd, Hn.
+    rewrite <- (sent_eq_recv (WCmd j) (c_log s) Hn Hnc). eapply Hd. exact Hnth.
+  Qed.
+
+  (* the cancellation flag is set only by LbCancel, which logs ECancel *)
+  Lemma cancelled_is_logged : forall sched,
+    let s := run M upd cres (init_state M m0 init_cmd scripts) sched in
+    c_ctx s = true -> In ECancel (c_log s).
+  Proof.
+    intros sched s Hc. destruct (Inv_reach sched) as [_ [_ [_ [_ [_ Hn]]]]]. fold s in Hn. apply Hn. exact Hc.
   Qed.
 
   Lemma nil_never_reaches_update : forall sched,
     let s := run M upd cres (init_state M m0 init_cmd scripts) sched in
     forall m c, In (EUpdate m c) (c_log s) -> m <> MNil /\ updatable m = true.
   Proof.
-    intros sched s m c Hin. destruct (Inv_reach sched) as [_ [_ [_ Hu]]]. fold s in Hu.
+    intros sched s m c Hin. destruct (Inv_reach sched) as [_ [_ [_ [Hu _]]]]. fold s in Hu.
     unfold I_upd in Hu. rewrite forallb_forall in Hu. specialize (Hu _ Hin). simpl in Hu.
     split; [|exact Hu]. intro E. subst m. discriminate.
   Qed.
@@ -587,10 +776,10 @@ Section C02.
     forall c, In (EHand c) (c_log s) -> In c (owed init_cmd (c_log s)).
   Proof.
     intros sched s c Hin. destruct (Inv_reach sched) as [Ho _]. fold s in Ho.
-    apply cnt_In. specialize (Ho c).
+    apply cnt_In. destruct (Ho c) as [Hle _].
     assert (1 <= cnt c (hands (c_log s))) as Hh.
     { apply cnt_In. unfold hands. apply in_flat_map. exists (EHand c). split; [exact Hin|left; reflexivity]. }
-    destruct (c_loop s); lia.
+    lia.
   Qed.
 
   (* ---------------------------------------------------------------- *)
@@ -615,7 +804,7 @@ Section C02.
 
   (* the other goroutines' parts of the state only grow at the end *)
   Definition ext (s s' : cstate M) : Prop :=
-    c_disp s' = c_disp s /\ c_senders s' = c_senders s /\
+    c_disp s' = c_disp s /\ c_senders s' = c_senders s /\ c_ifw s' = c_ifw s /\
     (exists a, c_cmds s' = c_cmds s ++ a) /\ (exists b, c_seqs s' = c_seqs s ++ b).
 
   Lemma ext_refl s : ext s s.
@@ -623,16 +812,16 @@ Section C02.
 
   Lemma ext_trans s1 s2 s3 : ext s1 s2 -> ext s2 s3 -> ext s1 s3.
   Proof.
-    intros [A1 [A2 [[a A3] [b A4]]]] [B1 [B2 [[a' B3] [b' B4]]]]. repeat split; try congruence.
+    intros [A1 [A2 [A5 [[a A3] [b A4]]]]] [B1 [B2 [B5 [[a' B3] [b' B4]]]]]. repeat split; try congruence.
     - exists (a ++ a'). rewrite B3, A3, app_assoc. reflexivity.
     - exists (b ++ b'). rewrite B4, A4, app_assoc. reflexivity.
   Qed.
 
   Lemma ext_firstn s s' : ext s s' ->
     firstn (length (c_cmds s)) (c_cmds s') = c_cmds s /\
-    firstn (length (c_seqs s)) (c_seqs s') = c_seqs s /\ c_senders s' = c_senders s.
+    firstn (length (c_seqs s)) (c_seqs s') = c_seqs s /\ c_senders s' = c_senders s /\ c_ifw s' = c_ifw s.
   Proof.
-    intros [_ [A2 [[a A3] [b A4]]]]. rewrite A3, A4.
+    intros [_ [A2 [A5 [[a A3] [b A4]]]]]. rewrite A3, A4.
     rewrite !firstn_app, !Nat.sub_diag, !firstn_all. simpl. rewrite !app_nil_r. auto.
   Qed.
 
@@ -692,7 +881,7 @@ Section C02.
         * repeat split; simpl; exists []; rewrite app_nil_r; reflexivity.
       + destruct (upd (c_model s) (MUser t)) as [m' c] eqn:Eu.
         set (s1 := {| c_model := m'; c_loop := LCmdSend c; c_senders := c_senders s; c_cmds := c_cmds s; c_seqs := c_seqs s;
-                      c_ctx := c_ctx s; c_disp := c_disp s; c_log := c_log s ++ [EUpdate (MUser t) c];
+                      c_ctx := c_ctx s; c_disp := c_disp s; c_ifw := c_ifw s; c_log := c_log s ++ [EUpdate (MUser t) c];
                       c_upds := c_upds s ++ [(c_model s, MUser t, m')] |}).
         destruct (cmdsend_drain c s1) as [s' [He [Hi Hx]]]; [exact Hd|reflexivity|].
         exists (LbProcess :: [LbHand; LbView]), s'. split; [|split; [reflexivity|split; [simpl; lia|split]]].
@@ -715,7 +904,7 @@ Section C02.
       + destruct (upd (c_model s) (MSeq cs)) as [m' c] eqn:Eu.
         set (s1 := {| c_model := m'; c_loop := LCmdSend c; c_senders := c_senders s; c_cmds := c_cmds s;
                       c_seqs := c_seqs s ++ [{| s_rest := cs; s_phase := SNext; s_done := false |}];
-                      c_ctx := c_ctx s; c_disp := c_disp s; c_log := (c_log s ++ []) ++ [EUpdate (MSeq cs) c];
+                      c_ctx := c_ctx s; c_disp := c_disp s; c_ifw := c_ifw s; c_log := (c_log s ++ []) ++ [EUpdate (MSeq cs) c];
                       c_upds := c_upds s ++ [(c_model s, MSeq cs, m')] |}).
         destruct (cmdsend_drain c s1) as [s' [He [Hi Hx]]]; [exact Hd|reflexivity|].
         exists (LbProcess :: [LbHand; LbView]), s'. split; [|split; [reflexivity|split; [simpl; lia|split]]].
@@ -743,7 +932,8 @@ Section C02.
                 (c_loop s' = LIdle \/ c_loop s' = LExited) /\
                 firstn (length (c_cmds s)) (c_cmds s') = c_cmds s /\
                 firstn (length (c_seqs s)) (c_seqs s') = c_seqs s /\
-                c_senders s' = c_senders s) /\
+                c_senders s' = c_senders s /\
+                c_ifw s' = c_ifw s) /\
     (forall i m, c_loop s = LIdle -> offer M s (WSender i) = Some m ->
                  step M upd cres s (LbRecv (WSender i)) <> None).
   Proof.
